@@ -236,11 +236,27 @@ def execute(h):
             syms = [model.uorder[(start + i) % n_cat_units]
                     for i in range(w)] + syms
         for sym in syms:
-            check_unit(step, sym)
+            try:
+                check_unit(step, sym)
+            except Stop:
+                raise
+            except Exception as e:      # noqa
+                # a directory query on a declared unit must not raise
+                violate('directory', 'query_raised', step, symbol=sym,
+                        observed=type(e).__name__)
         for tn in model.order:
-            check_type(step, tn)
+            try:
+                check_type(step, tn)
+            except Stop:
+                raise
+            except Exception as e:      # noqa
+                violate('directory', 'query_raised', step, type=tn,
+                        observed=type(e).__name__)
         # the base type lists nothing and is nobody's type
-        got = [u.symbol for u in Quantity.units()]
+        try:
+            got = [u.symbol for u in Quantity.units()]
+        except Exception as e:      # noqa
+            got = ['<' + type(e).__name__ + '>']
         if got or len(Quantity) != 0:
             violate('directory', 'base_type_lists_units', step,
                     observed=sorted(got)[:5], count=len(got))
